@@ -412,8 +412,8 @@ def roundtrip_all(chk: Check, header, cases, procs: int, k: int) -> None:
 TOOL_ID = 4
 
 
-def count_lines(fn: Callable[[], Any]) -> int:
-    """Number of interpreter line events while fn runs (any outcome)."""
+def count_lines(fn: Callable[[], Any]) -> Tuple[int, str]:
+    """(number of interpreter line events while fn runs, its outcome)."""
     mon = sys.monitoring
     cnt = [0]
 
@@ -425,15 +425,13 @@ def count_lines(fn: Callable[[], Any]) -> int:
         mon.register_callback(TOOL_ID, mon.events.LINE, cb)
         mon.set_events(TOOL_ID, mon.events.LINE)
         try:
-            fn()
-        except BaseException:  # noqa: BLE001 - outcome classes are checked elsewhere
-            pass
+            out = outcome(fn)
         finally:
             mon.set_events(TOOL_ID, 0)
             mon.register_callback(TOOL_ID, mon.events.LINE, None)
     finally:
         mon.free_tool_id(TOOL_ID)
-    return cnt[0]
+    return cnt[0], out
 
 
 def grow_text(unit: Dict[str, Any], n: int) -> str:
@@ -458,7 +456,7 @@ def _grow_work(job):
                     name, fn = channels(kind, grow_text(unit, m))[ch_i]
                 cs.append(count_lines(fn))
             out.append({"kind": "grow", "input_kind": kind, "shape": unit["shape"], "u": unit["u"], "channel": name,
-                        "n": n, "c1": cs[0], "c2": cs[1], "c4": cs[2]})
+                        "n": n, "c1": cs[0][0], "c2": cs[1][0], "c4": cs[2][0], "out": [c[1] for c in cs]})
     return out
 
 
@@ -483,6 +481,12 @@ def growth(chk: Check, kind: str, units: List[Dict[str, Any]], n: int, procs: in
         if key not in worst or e > worst[key]["exponent"]:
             worst[key] = {"exponent": round(e, 3), "unit": r["u"], "shape": r["shape"], "n": n,
                           "counts": [r["c1"], r["c2"], r["c4"]]}
+        for m, o in zip((n, 2 * n, 4 * n), r["out"]):
+            if o not in ("ok", "tse"):
+                text = grow_text({"shape": r["shape"], "u": r["u"]}, m)
+                chk.violation({"kind": "input", "input_kind": kind, "set": "growth", "syms": None, "text": text,
+                               "channel": r["channel"]}, {"expected": "ok or TemplateSyntaxError", "observed": o},
+                              key=finding_key(kind, r["channel"], text, o))
         if r["c4"] > 32 * r["c1"]:
             chk.violation({"kind": "growth", "input_kind": kind, "unit": r["u"], "shape": r["shape"], "n": n,
                            "channel": r["channel"]},
@@ -527,7 +531,7 @@ def trace_validate(chk: Check, recs: List[Dict[str, Any]], what: str, w: Path) -
         if why == "bad:input_space":
             raise MachineryError(f"driver produced an input outside the modelled space: {rec}")
         if rec["kind"] == "grow":
-            continue                      # already reported by growth()
+            continue                      # already reported by growth() from the same numbers
         text = "".join(rec["syms"])
         chs = rec["chan"]
         for ch, out in zip(chs, rec["out"]):
@@ -692,3 +696,143 @@ def run(tier: str) -> int:
     chk.cov["rule"] = RULE
     chk.assumptions += ASSUMPTIONS
     return chk.finish()
+
+
+def replay(path: str) -> int:
+    env()
+    _init_worker(BUDGET_S, limit_memory=False)
+    d = json.load(open(path))
+    case = d["case"]
+    kind = case.get("kind")
+    if kind in ("input", "trace"):
+        ik = "tpl" if case.get("input_kind") == "tpl" else "tag"
+        res = outcomes(ik, case["text"])
+        print(json.dumps({"text": case["text"], "outcomes": res}, indent=1))
+        return 1 if any(o not in ("ok", "tse") for c, o in res if c == case.get("channel")) else 0
+    if kind in ("roundtrip", "roundtrip-trace"):
+        c02.set_ctx(case["ctx"])
+        bad = roundtrip(case["text"], case["text"].rstrip().endswith("/"))
+        print(json.dumps({"text": case["text"], "roundtrip": bad}, indent=1, default=repr))
+        return 1 if bad and "skip" not in bad else 0
+    if kind == "growth":
+        unit = {"shape": case["shape"], "u": case["unit"]}
+        recs = _grow_work((case["input_kind"], [unit], case["n"]))
+        recs = [r for r in recs if r["channel"] == case["channel"]]
+        print(json.dumps([{**r, "exponent": round(exponent(r["c1"], r["c4"]), 3)} for r in recs], indent=1))
+        return 1 if any(r["c4"] > 32 * r["c1"] for r in recs) else 0
+    print(f"unknown case kind {kind!r}")
+    return 2
+
+
+def selftest(tier: str) -> int:
+    """In-process mutation probes (monkeypatched library functions; /repo is never touched)."""
+    from contextlib import ExitStack, contextmanager
+    from .core import run_probes
+    env()
+    import django_components.expression as dexpr
+    import django_components.util.django_monkeypatch as dmp
+    import django_components.util.tag_parser as tp
+    import django_components.util.template_parser as tpar
+    import django_components.util.template_tag as ttag
+
+    @contextmanager
+    def patch(obj, name, new):
+        old = getattr(obj, name)
+        setattr(obj, name, new)
+        try:
+            yield
+        finally:
+            setattr(obj, name, old)
+
+    def many(*ps):
+        @contextmanager
+        def cm():
+            with ExitStack() as st:
+                for p in ps:
+                    st.enter_context(patch(*p))
+                yield
+        return cm
+
+    def post_init_value_error(self):
+        # validation errors of a value part raised with the wrong exception class
+        if self.translation and not self.quoted:
+            raise ValueError("Translation value must be quoted")
+        if self.spread and self.filter:
+            raise ValueError("Cannot define spread syntax inside a filter")
+
+    orig_detail = tpar._detailed_tag_parser
+
+    def hang_on_trailing_backslash(text, lineno, start_index):
+        # an escape at the very end of an unterminated string: the cursor stops advancing
+        if text.endswith("\\") and (text.count('"') % 2 == 1 or text.count("'") % 2 == 1):
+            while True:
+                pass
+        return orig_detail(text, lineno, start_index)
+
+    orig_struct_ser = tp.TagValueStruct.serialize
+
+    def list_without_commas(self):
+        if self.type == "list":
+            return (self.spread or "") + "[" + " ".join(e.serialize() for e in self.entries) + "]"
+        return orig_struct_ser(self)
+
+    def dict_spread_prefix_lost(self):
+        if self.type == "dict" and self.spread:
+            old, self.spread = self.spread, None
+            try:
+                return orig_struct_ser(self)
+            finally:
+                self.spread = old
+        return orig_struct_ser(self)
+
+    orig_part_ser = tp.TagValuePart.serialize
+
+    def always_double_quotes(self):
+        if self.quoted:
+            old, self.quoted = self.quoted, '"'
+            try:
+                return orig_part_ser(self)
+            finally:
+                self.quoted = old
+        return orig_part_ser(self)
+
+    orig_parse_template = tpar.parse_template
+
+    def cubic_rescan(text):
+        toks = orig_parse_template(text)
+        n = len(toks)
+        k = 0
+        for a in range(n):          # every token compared with every pair of later ones
+            for b in range(n):
+                for c in range(n):
+                    k += 1
+        return toks
+
+    orig_parse_tag = tp.parse_tag
+
+    def recursion_per_bracket(text, parser):
+        def down(n):
+            return 0 if n == 0 else 1 + down(n - 1)
+        down(150 * text.count("["))
+        return orig_parse_tag(text, parser)
+
+    probes = [
+        ("value-error-instead-of-syntax-error", many((tp.TagValuePart, "__post_init__", post_init_value_error))),
+        ("hang-on-trailing-backslash", many((tpar, "_detailed_tag_parser", hang_on_trailing_backslash))),
+        ("list-serialised-without-commas", many((tp.TagValueStruct, "serialize", list_without_commas))),
+        ("dict-spread-prefix-lost-in-serialisation", many((tp.TagValueStruct, "serialize", dict_spread_prefix_lost))),
+        ("serialize-always-double-quotes", many((tp.TagValuePart, "serialize", always_double_quotes))),
+        ("cubic-rescan-of-tokens", many((dmp, "parse_template", cubic_rescan), (dexpr, "parse_template", cubic_rescan))),
+        ("recursion-per-bracket", many((ttag, "parse_tag", recursion_per_bracket))),
+    ]
+    cache: Dict[str, Any] = {}
+
+    def body(chk: Check) -> None:
+        _E["budget"] = 0.4
+        try:
+            core(chk, "quick", procs=4, maxlen=3, n_bases=25, grow_n=6, n_rand=(300, 150, 100, 40),
+                 c02_tier="selftest", rt_k=2, stop_after=50, cache=cache)
+        finally:
+            _E["budget"] = BUDGET_S
+
+    return run_probes(PID, probes, body)
